@@ -2,7 +2,7 @@
 from sa import pat as P
 from sa.cfg import cfg
 from sa.expr import ex, show, walk, cond_exprs, const_val
-from sa.util import table, fmt_conds, describe_table, local_by_name, local_assignments, glob_any
+from sa.util import table, fmt_conds, describe_table, local_assignments, glob_any
 from rules.walks import *
 
 EXPLANATION = (
@@ -60,10 +60,13 @@ def run(ctx):
         ctx.check(bool(refusing) and not back, 'R2', 'utxos:refusal-ends-walk', ap, 'once a block is refused the loop is left (no path back to the loop header): no later block is applied',
                   'after a refused block the walk continues with later blocks')
         # R4
+        from sa.util import find_locals, is_var
+        NH = P.call('ic_btc_canister::utxo_set::UtxoSet::next_height', P.field('utxos', P.param('state')))
+        HASH0 = P.call('<ic_btc_canister::blocktree::CachedBlock as ic_btc_canister::blocktree::ChainBlock>::block_hash', P.call('ic_btc_canister::blocktree::BlockChain::first', P.param('chain')))
         tips = {}
-        for nm in ('tip_block_hash', 'tip_block_height'):
-            for l in local_by_name(f, nm):
-                tips[nm] = table(prog, f, l)
+        for nm, init in (('tip_block_hash', HASH0), ('tip_block_height', NH)):
+            ls = find_locals(prog, f, lambda x, l, init=init: init(x), lambda x, l, init=init: not init(x))
+            tips[nm] = table(prog, f, ls[0]) if len(ls) == 1 else []
         okc = True
         why = ''
         for nm, rows_ in tips.items():
@@ -76,7 +79,6 @@ def run(ctx):
             if not same:
                 okc, why = False, '%s is updated under other conditions than apply_block' % nm
         hv = [r for r in tips.get('tip_block_height', []) if g.dominates(h, r[0])]
-        NH = P.call('ic_btc_canister::utxo_set::UtxoSet::next_height', P.field('utxos', P.param('state')))
         okh = len(hv) == 1 and P.binop('Add', NH, P.cast(IDX, 'u32'))(hv[0][1])
         hh = [r for r in tips.get('tip_block_hash', []) if g.dominates(h, r[0])]
         okhh = len(hh) == 1 and P.call('<ic_btc_canister::blocktree::CachedBlock as ic_btc_canister::blocktree::ChainBlock>::block_hash', BLK)(hh[0][1])
@@ -98,13 +100,17 @@ def run(ctx):
     if sc:
         e = ex(prog, sc)
         r = e.local(0)
-        T, M = P.named('target_block_depth'), P.named('max_depth_of_the_other_blocks')
-        ctx.check(P.binop('Sub', P.cast(T, 'i32'), P.cast(M, 'i32'))(r), 'R3', 'count:formula', sc, 'stability count = target depth - max depth of the others (as i32)', 'stability count = %s' % show(r))
+        from sa.util import find_locals, is_var
         it = P.call('<core::slice::iter::Iter as core::iter::traits::iterator::Iterator>::next', P.call('core::slice::iter', P.param('blocks_with_depths_on_the_same_height')))
         H_, D_ = P.field('0', P.field('0', P.downcast('Some', it))), P.field('1', P.field('0', P.downcast('Some', it)))
         tb = P.param('target_block')
-        rows_m = [x for l in local_by_name(sc, 'max_depth_of_the_other_blocks') for x in table(prog, sc, l)]
-        rows_t = [x for l in local_by_name(sc, 'target_block_depth') for x in table(prog, sc, l)]
+        lm = find_locals(prog, sc, lambda x, l: const_val(x) == 0, lambda x, l: P.call('max', D_, is_var(l))(x))
+        lt = find_locals(prog, sc, lambda x, l: const_val(x) == 0, lambda x, l: D_(x))
+        T = is_var(lt[0]) if len(lt) == 1 else (lambda e: False)
+        M = is_var(lm[0]) if len(lm) == 1 else (lambda e: False)
+        ctx.check(P.binop('Sub', P.cast(T, 'i32'), P.cast(M, 'i32'))(r), 'R3', 'count:formula', sc, 'stability count = target depth - max depth of the others (as i32)', 'stability count = %s' % show(r))
+        rows_m = table(prog, sc, lm[0]) if len(lm) == 1 else []
+        rows_t = table(prog, sc, lt[0]) if len(lt) == 1 else []
         okm = any(P.call('max', D_, M)(x[1]) and any(P.binop('Ne', H_, tb)(c) for c in x[2]) for x in rows_m) and any(const_val(x[1]) == 0 for x in rows_m) and len(rows_m) == 2
         okt = any(D_(x[1]) and any(P.binop('Eq', H_, tb)(c) for c in x[2]) for x in rows_t) and any(const_val(x[1]) == 0 for x in rows_t) and len(rows_t) == 2
         ctx.check(okm and okt, 'R3', 'count:accumulators', sc, 'max is taken over entries with hash != target, the target depth from the entry with hash == target; both start at 0',
@@ -116,8 +122,10 @@ def run(ctx):
     if hp:
         e = ex(prog, hp)
         g = cfg(hp)
-        D = P.named('depth')
-        rows_d = [x for l in local_by_name(hp, 'depth') for x in table(prog, hp, l)]
+        from sa.util import counter_local, is_var
+        ld = counter_local(prog, hp, 0, 1)
+        D = is_var(ld[0]) if len(ld) == 1 else (lambda e: False)
+        rows_d = table(prog, hp, ld[0]) if len(ld) == 1 else []
         rec = P.call('ic_btc_canister::blocktree::BlockTree::block_hashes_with_depths_by_heights_helper', P.anything, P.anything, P.binop('Add', P.param('height'), P.const(1)))
         good = any(const_val(x[1]) == 0 for x in rows_d) and any(P.call('max', D, rec)(x[1]) for x in rows_d) and any(P.binop('Add', D, P.const(1))(x[1]) for x in rows_d) and len(rows_d) == 3
         ctx.check(good, 'R5', 'depth:formula', hp, 'depth = 1 + max over children of the child depth (children visited at height + 1)', 'depth updates: %s' % describe_table(rows_d))
